@@ -161,6 +161,33 @@ def check_resume_bypasses_cache(ctx, rule: str) -> None:
         raise AnalysisError(f"cache lookup/store sites in the interrupt-capable superstep not recognised ({n_sites})")
 
 
+def check_every_provided_value_seeded(ctx, rule: str) -> None:
+    """The resume decision is taken from the run state: an answer supplied by the caller must be in the initial state
+    whoever consumes it (an interrupt's own output may have no consumer at all) — the state initialiser stores every
+    provided value, unconditionally."""
+    from .common import must_reach_in_iteration
+
+    db, rep = ctx.db, ctx.rep
+    ini = db.func("runners._shared.helpers.initialize_state")
+    vp = next((p_ for p_ in ini.param_names if "dict" in src(ini.param_annotation(p_) or ast.Constant(""))), None)
+    if vp is None:
+        raise AnalysisError("values parameter of initialize_state not found")
+    cfg = ctx.cfg(ini)
+    ok, why = False, f"no loop over '{vp}' that stores each value found"
+    for lp in [n for n in cfg.nodes if n.kind == "for" and vp in src(n.ast.iter)]:
+        stores = [n for n in cfg.nodes if contains(lp.ast, n.ast) and n.ast is not lp.ast and (any(isinstance(c.func, ast.Attribute) and c.func.attr == "update_value" for c in cfg.calls_at(n)) or (isinstance(n.ast, ast.Assign) and isinstance(n.ast.targets[0], ast.Subscript) and src(n.ast.targets[0].value).endswith(".values")))]
+        if not stores:
+            continue
+        ok = must_reach_in_iteration(cfg, lp, stores, {})
+        why = "every provided value is stored in the initial state" if ok else f"a provided value is stored only under a condition ('{next((src(t.ast)[:60] for t in cfg.nodes if t.kind == 'test' and contains(lp.ast, t.ast)), '?')}'): an answer supplied for an interrupt whose output no node consumes (the last node of the graph, or one output of several) never reaches the state, so the resume guard does not see it — the handler runs again and the run pauses at the interrupt that was already answered"
+        break
+    else:
+        for n in walk_local(ini.node):
+            if isinstance(n, ast.Call) and isinstance(n.func, ast.Attribute) and n.func.attr == "update" and src(n.func.value).endswith(".values") and n.args and src(n.args[0]) == vp:
+                ok, why = True, "every provided value is stored in the initial state (bulk update)"
+    rep.add(rule, f"{ini.qname}:every-provided-value-seeded", ok, ini.loc(), why)
+
+
 def run(ctx) -> None:
     db, rep = ctx.db, ctx.rep
     rep.rule("C14.R1", "PauseExecution is a BaseException, not an Exception", floor=1)
@@ -423,6 +450,8 @@ def run(ctx) -> None:
                 whyn = "with a single data output every answer is stored verbatim under the output name, as the resume path does"
         rep.add("C14.R4", f"{nf.qname}:single-output-answer-verbatim", okn, nf.loc(), whyn)
 
+    check_every_provided_value_seeded(ctx, "C14.R4")
+
     # ---- R10 --------------------------------------------------------------------
     check_resume_bypasses_cache(ctx, "C14.R10")
 
@@ -582,6 +611,8 @@ VARIANTS = [
     Variant("template-pause-returns-failed", TA, replace_once("                status=RunStatus.PAUSED,\n                run_id=run_id,\n                pause=pause.pause_info,", "                status=RunStatus.FAILED,\n                run_id=run_id,\n                pause=pause.pause_info,"), {"C14.R2"}),
     Variant("no-interrupt-isolation", AS, replace_once("    if interrupts:\n        ready_nodes = [interrupts[0]]\n", ""), {"C14.R3"}),
     Variant("isolation-all-interrupts", AS, replace_once("        ready_nodes = [interrupts[0]]", "        ready_nodes = interrupts"), {"C14.R3"}),
+    Variant("initial-state-only-declared-inputs", "src/hypergraph/runners/_shared/helpers.py", replace_once("    for name, value in values.items():\n        state.update_value(name, value)\n\n    return state\n", "    for name, value in values.items():\n        if name in graph.inputs.all:\n            state.update_value(name, value)\n\n    return state\n"), {"C14.R4"}),
+    Variant("twin-initial-state-items-unpacked", "src/hypergraph/runners/_shared/helpers.py", replace_once("    for name, value in values.items():\n        state.update_value(name, value)\n\n    return state\n", "    for item in values.items():\n        state.update_value(*item)\n\n    return state\n"), set()),
     Variant("resume-ignores-executions", AI, replace_once("        if all_outputs_present and node.name not in state.node_executions:", "        if all_outputs_present:"), {"C14.R4"}),
     Variant("resume-after-handler", AI, replace_once("        all_outputs_present = all(o in state.values for o in data_outputs)\n        if all_outputs_present and node.name not in state.node_executions:\n            result = {o: state.values[o] for o in data_outputs}\n            return _add_emit_sentinels(result, node)\n", "").__call__ and (lambda s: s.replace("        all_outputs_present = all(o in state.values for o in data_outputs)\n        if all_outputs_present and node.name not in state.node_executions:\n            result = {o: state.values[o] for o in data_outputs}\n            return _add_emit_sentinels(result, node)\n", "").replace("        # None return means \"pause\"\n", "        all_outputs_present = all(o in state.values for o in data_outputs)\n        if all_outputs_present and node.name not in state.node_executions:\n            result = {o: state.values[o] for o in data_outputs}\n            return _add_emit_sentinels(result, node)\n        # None return means \"pause\"\n")), {"C14.R4"}),
     Variant("nested-result-unconverted", AG, replace_once("        return self._handle_nested_result(node, result)", "        return node.map_outputs_from_original(result.values)"), {"C14.R5"}),
